@@ -20,6 +20,13 @@ def main() -> int:
     ap.add_argument("--selftest", action="store_true")
     a = ap.parse_args()
     seed = int(os.environ.get("VERIF_SEED", "0") or 0)
+    import warnings
+
+    try:
+        import comb_spec_searcher  # noqa: F401  (installs warnings.simplefilter("once"))
+    except Exception:
+        pass
+    warnings.simplefilter("ignore")
     try:
         import logzero
 
